@@ -7,7 +7,8 @@ LEVEL = "proof"
 COQ_TARGETS = ["Props/Properties_C15.vo", "Layout/GenCheck.vo", "Layout/Examples.vo", "Extract/ExtractLayout.vo"]
 PROPS_FILES = ["Props/Properties_C15.v"]
 RUNS = [dict(name="layout", harness="c15", driver="layout", model_ml="layout_model")]
-EXTRA_OBLIGATIONS = ["Layout/GenCheck.v:generated_typerefs_match (qualified generated type names vs schema type ids)",
+EXTRA_OBLIGATIONS = ["Layout/GenCheck.v:generated_defrefs_match (pointer slot + default bytes of getters and X_Future accessors)",
+                     "Layout/GenCheck.v:generated_typerefs_match (qualified generated type names vs schema type ids)",
                      "Layout/GenCheck.v:generated_fields_match (vm_compute over Gen/GenAccessors.v)",
                      "Layout/GenCheck.v:generated_fields_wf", "Layout/GenCheck.v:generated_nodes_match"]
 
@@ -106,6 +107,8 @@ def post(res, stats, mismatches):
          "Definition badt := filter (fun p => negb (typerefs_match [p])) typerefs.\n"
          "Eval vm_compute in (length badf, length badn, length badw, length badt).\n"
          "Eval vm_compute in firstn 6 badt.\n"
+         "Definition badd := filter (fun p => negb (defrefs_match [p])) defrefs.\n"
+         "Eval vm_compute in (length badd, firstn 4 badd).\n"
          "Eval vm_compute in firstn 3 badf.\n"
          "Eval vm_compute in map (fun p => gen_accessor (fst p)) (firstn 3 badf).\n"
          "Eval vm_compute in firstn 3 badn.\n"
